@@ -695,13 +695,20 @@ def normalise_input(schema, doc):
 
 def _norm_props(schema, props, doc, path):
     if not isinstance(doc, dict):
+        if len(props) == 1 and doc is not None and not isinstance(doc, list) and path != "$":
+            # the schema language lets an object with a single property be written as that property's value
+            (k, p), = props.items()
+            return {k: _norm_type(schema, p["type"], doc, path + "." + k)}
         raise InvalidInput("%s: expected object" % path)
     out = {}
     for k in doc:
         if k not in props:
             raise InvalidInput("%s: unknown field %s" % (path, k))
     for k, p in props.items():
-        if k in doc and doc[k] is not None:
+        if k in doc:
+            if doc[k] is None:
+                # an explicit null is a value, not an omission: no typed field accepts it
+                raise InvalidInput("%s: null for field %s" % (path, k))
             out[k] = _norm_type(schema, p["type"], doc[k], path + "." + k)
         elif p.get("default") is not None:
             out[k] = _norm_type(schema, p["type"], p["default"], path + "." + k)
